@@ -264,6 +264,8 @@ See also: guarded, rational
         if self.display < self.precision:
             v += self.__scaledr    # round
             v //= self.__scaledd   # reduce display precision
+        if v < 0:   # format the magnitude and prefix the sign
+            return '-' + self.__dfmt % ((-v)//self.__scaled, (-v)%self.__scaled)
         return self.__dfmt % (v//self.__scaled, v%self.__scaled)
 
     @classmethod
